@@ -5,7 +5,7 @@
     accessors, clone_onto, region-to-region copies), so this layer models them, one definition per
     Rust [impl] block, and ties them back to the core with [own_index]. *)
 From FC Require Import Base.Res Index.IC Region.Region Region.Owned Region.Simple Region.Slice
-  Region.Collapse Region.Consec Region.Columns Codec.Dictionary.
+  Region.Collapse Region.Consec Region.Columns Codec.Dictionary Huffman.Huffman.
 Set Implicit Arguments.
 
 Record Items (R : Region) := {
@@ -325,3 +325,11 @@ Section CodecI.
       (fun x => Ok x) (fun v => v) (fun x _ => Ok x)
       (fun s x => push (codec_region R to_b of_b) s x).
 End CodecI.
+
+(** * HuffmanContainer: a read item ([Wrapped]) is a lazily decoded symbol sequence; the model
+    decodes it when it is created *)
+Definition huffman_items : Items huffman_region :=
+  @Build_Items huffman_region (list sym)
+    (fun x i => read huffman_region x i)
+    (fun x => Ok x) (fun v => v) (fun x _ => Ok x)
+    (fun s x => push huffman_region s x).
